@@ -6,6 +6,10 @@ PROPS = ['C19', 'C05']
 U = 'src/utils.rs'
 
 MUTANTS = [
+    ('utils::make_relative_path', r'base_path\.len\(\) - prefix\)', 'base_path.len())'),
+    ('utils::make_relative_path', r'&target_path\[prefix\.\.\]', '&target_path[..]'),
+    ('utils::make_relative_path', r'base_path\.pop\(\);', ''),
+    ('utils::make_relative_path', r'verif_repeat_collect\("\.\./"', 'verif_repeat_collect("./"'),
     ('utils::find_common_prefix_of_sorted_vec', r'seq_max_idx = Some\(idx\);', 'seq_max_idx = Some(idx + 1);'),
     ('utils::find_common_prefix_of_sorted_vec', r'break;', '{}'),
     ('utils::find_common_prefix_of_sorted_vec', r'verif_opt_lt\(seq_max_idx, max_idx\)', 'verif_opt_lt(max_idx, seq_max_idx)'),
@@ -32,3 +36,17 @@ def build(u):
         u.count('R-type-annot', f.rewrite(r'let mut max_idx = None;', 'let mut max_idx: Option<usize> = None;', expect=1))
         u.count('R-type-annot', f.rewrite(r'let mut seq_max_idx = None;', 'let mut seq_max_idx: Option<usize> = None;', expect=1))
     emit_free_fn(u, U, 'find_common_prefix_of_sorted_vec', 'utils::find_common_prefix_of_sorted_vec', prep=prep)
+
+    def prep_rel(f):
+        n = f.rewrite(r"\b(target|base)\s*\.split\(&\['/', '\\\\'\]\[\.\.\]\)\s*\.filter\(\|x\| !x\.is_empty\(\)\)\s*\.collect\(\)", r'verif_path_components(\1)', expect=2)
+        n += f.rewrite(r'items\.sort_by_key\(\|x\| x\.len\(\)\);', 'verif_sort_by_len(&mut items);', expect=1)
+        n += f.rewrite(r'find_common_prefix_of_sorted_vec\(&items\)\s*\.map\(\|x\| x\.len\(\)\)\s*\.unwrap_or\(0\)', 'verif_opt_slice_len_or0(find_common_prefix_of_sorted_vec(&items))', expect=1)
+        n += f.rewrite(r'repeat\("\.\./"\)\.take\(base_path\.len\(\) - prefix\)\.collect\(\)', 'verif_repeat_collect("../", base_path.len() - prefix)', expect=1)
+        n += f.rewrite(r'&target_path\[prefix\.\.\]\.join\("/"\)', '&verif_join(&target_path[prefix..], "/")', expect=1)
+        n += f.rewrite(r'"\."\.into\(\)', 'verif_string_from(".")', expect=1)
+        u.count('R-shim-call', n)
+        for w in ('.split(', '.collect()', '.join(', '.sort_by_key(', '.into()'):
+            if w in f.text:
+                from vx.rs import LostAnchor
+                raise LostAnchor('make_relative_path: a %s call has no shim' % w)
+    emit_free_fn(u, U, 'make_relative_path', 'utils::make_relative_path', prep=prep_rel)
